@@ -283,6 +283,16 @@ def energy(cfg, arrays, E, Hp, H):
     return np.sum(wE * eps * np.abs(E) ** 2, axis=ax) + np.sum(wH * mu * np.real(np.conj(Hp) * H), axis=ax)
 
 
+def energy_scale(cfg, arrays, E, Hp, H):
+    """sum of the absolute values of the energy terms: the natural scale of the rounding noise of energy()"""
+    full = (3, *cfg["shape"])
+    eps = 1.0 / np.broadcast_to(np.asarray(arrays.inv_permittivities, dtype=np.float64), full)
+    mu = 1.0 / np.broadcast_to(np.asarray(arrays.inv_permeabilities, dtype=np.float64), full)
+    wE, wH = weights(cfg)
+    ax = tuple(range(E.ndim - 4, E.ndim))
+    return np.sum(wE * eps * np.abs(E) ** 2, axis=ax) + np.sum(wH * mu * np.abs(Hp) * np.abs(H), axis=ax)
+
+
 def to_ints(x, scale):
     """(re list, im list, max deviation from integers) of scale * x, flat C order"""
     x = np.asarray(x) * scale
@@ -384,14 +394,14 @@ def random_kinds(rng, allow_bloch=True):
 
 
 def sweep_configs():
-    """the per-axis sweep of Yee.tla: the long axis runs through all 13 kinds, background periodic / PEC-PEC"""
+    """the per-axis sweep of Yee.tla: the long axis runs through all 13 kinds, background periodic / (PEC, bare halo)"""
     out = []
     for a, shape in enumerate(([3, 2, 2], [2, 3, 2], [2, 2, 3])):
         for k in range(1, 14):
             kinds = [0, 0, 0]
             kinds[a] = k
             kinds[(a + 1) % 3] = 1
-            kinds[(a + 2) % 3] = 9
+            kinds[(a + 2) % 3] = 8
             out.append((shape, kinds))
     return out
 
